@@ -266,6 +266,34 @@ impl<'a, 'tcx> BodyCx<'a, 'tcx> {
         let mut name = J::Null;
         if let Const::Unevaluated(u, _) = c.const_ {
             name = s(self.cx.path(u.def));
+            if let Some(pr) = u.promoted {
+                // summarise the promoted body: aggregates and constants it is built from
+                let mut parts: Vec<String> = vec![];
+                if u.def.is_local() {
+                    let bodies = tcx.promoted_mir(u.def);
+                    if let Some(pb) = bodies.get(pr) {
+                        for bb in pb.basic_blocks.iter() {
+                            for st in bb.statements.iter() {
+                                if let StatementKind::Assign(b) = &st.kind {
+                                    match &b.1 {
+                                        Rvalue::Aggregate(k, _) => {
+                                            if let AggregateKind::Adt(d, vi, ..) = &**k {
+                                                let def = tcx.adt_def(*d);
+                                                parts.push(format!("{}::{}", self.cx.path(*d), def.variant(*vi).name));
+                                            }
+                                        }
+                                        Rvalue::Use(Operand::Constant(cc), ..) => {
+                                            parts.push(full!(format!("{}", cc.const_)));
+                                        }
+                                        _ => {}
+                                    }
+                                }
+                            }
+                        }
+                    }
+                }
+                name = s(format!("promoted[{}]", parts.join(";")));
+            }
         }
         if let ty::FnDef(d, _) = ty.kind() {
             return J::Arr(vec![s("fn"), s(self.cx.path(*d))]);
